@@ -2,27 +2,29 @@
 """Apply every seeded change to /repo in turn, run the quick check of its property, undo it.
 Writes seeded/REGRESSION.md.  tools/regress_seeded.py [id-prefix ...]"""
 import json, os, subprocess, sys, time
+REPO = os.environ.get('REG_REPO', '/repo')      # tree the changes are applied to
+VERIF = os.environ.get('REG_VERIF', '/verif')   # checks that are run (a copy whose path dependency points at REG_REPO)
 ids = sorted(os.listdir('/verif/seeded'))
 ids = [i for i in ids if os.path.isdir(f'/verif/seeded/{i}') and (len(sys.argv) == 1 or any(i.startswith(p) for p in sys.argv[1:]))]
 rows = []
 def sh(cmd, cwd=None, timeout=7200):
     p = subprocess.run(cmd, shell=True, cwd=cwd, stdout=subprocess.PIPE, stderr=subprocess.STDOUT, text=True, timeout=timeout)
     return p.returncode, p.stdout
-assert sh('git -C /repo status --porcelain --untracked-files=no')[1].strip() == '', '/repo dirty'
+assert sh(f'git -C {REPO} status --porcelain --untracked-files=no')[1].strip() == '', 'repo dirty'
 for sid in ids:
     meta = json.load(open(f'/verif/seeded/{sid}/meta.json'))
     prop = meta['property']
-    rc, out = sh(f'git -C /repo apply /verif/seeded/{sid}/patch.diff')
+    rc, out = sh(f'git -C {REPO} apply /verif/seeded/{sid}/patch.diff')
     if rc != 0:
         rows.append((sid, prop, 'PATCH DOES NOT APPLY', '', 0)); continue
     t0 = time.time()
     try:
         if sid == 'C03-s8':
-            rc, out = sh('./miri_layer.sh 2188 16 "D" 20261004', cwd='/verif'); how = 'thorough part: Miri scenario D'
+            rc, out = sh('./miri_layer.sh 2188 16 "D" 20261004', cwd=VERIF); how = 'thorough part: Miri scenario D'
         else:
-            rc, out = sh(f'./check {prop} quick', cwd='/verif'); how = f'./check {prop} quick'
+            rc, out = sh(f'./check {prop} quick', cwd=VERIF); how = f'./check {prop} quick'
     finally:
-        sh('git -C /repo checkout -- . ; git -C /repo clean -fdq src')
+        sh(f'git -C {REPO} checkout -- . ; git -C {REPO} clean -fdq src')
     lines = [l for l in out.splitlines() if not l.startswith('KNOWN-FINDING')]
     viol = [l for l in lines if l.startswith('VIOLATION')]
     sigs = sorted({l.strip()[len('signature: '):].split(' (')[0][:90] for l in lines if l.strip().startswith('signature:')})
